@@ -35,6 +35,21 @@ Theorem no_hang : forall nw tm es0 h0 os0 t d es h os dt h' os',
     stopping h' = true \/ exists t1 raw, In (ODone t1 raw) (os ++ os') /\ same_task t t1.
 Proof. exact no_hang_lemma. Qed.
 
+(** ... and the loop does wake up for it: with no socket event at all, the next wake-up of the
+    event loop (its poll timeout, computed from the pending tasks) is no later than the deadline of
+    any pending task — whatever tasks without deadline (a soft stop still draining, a configuration
+    reload) are pending beside it.  Together with [no_hang]: a task with deadline [d] is finished at
+    [d] plus one wake-up, events or not. *)
+Theorem wakeup_covers_every_deadline : forall h t d,
+    In t (tasks h) -> t_deadline t = Some d ->
+    exists w, next_wake h = Some w /\ (w <= d)%N.
+Proof. intros h t d Hin Hd. unfold next_wake. rewrite gen_wake. exact (earliest_le _ _ _ Hin Hd). Qed.
+
+Example wakeup_nonvacuous :
+  let '(h, _) := run (init 2 1000) [EClient 0 VSoftStop; ETick 300; EClient 1 VWorker; ETick 100; EClient 2 VQuery] in
+  List.length (tasks h) = 3 /\ next_wake h = Some 1300%N.
+Proof. vm_compute. split; reflexivity. Qed.
+
 (** 3. OK means applied.  If the client of request [rq] is told OK and the
     task is one whose OK claims application (worker verbs, load-state), then
     every request that was scattered for [rq] — one per worker alive at
@@ -141,6 +156,33 @@ Proof. vm_compute. reflexivity. Qed.
 Theorem handover_preserves_invariants : forall nw tm es h os,
     run (init nw tm) es = (h, os) -> Inv [] (handover h) [] /\ next_task (handover h) = next_task h.
 Proof. intros. split; [eapply handover_inv; eapply reach_inv; eauto|reflexivity]. Qed.
+
+(** Request ids are unique across the upgrade: the ids the new main process gives to the requests
+    it scatters carry the task counter the old one handed over, which is above the task number of
+    every request id the old main process still had in flight — so a worker's late answer to a
+    request of the old main process is never taken for the answer to a new one ([late_response_ignored]
+    applies to it), and the counter goes on from there. *)
+Theorem ids_fresh_after_handover : forall nw tm es h os c v h' os' w r rq,
+    run (init nw tm) es = (h, os) ->
+    client_request (handover h) c v = (h', os') -> In (OSend w r rq) os' ->
+    tid_of r = next_task h /\ next_task h < next_task h' /\
+    (forall r0 tid0, In (r0, tid0) (in_flight h) -> tid_of r0 < tid_of r) /\
+    (forall t, In t (tasks h) -> t_id t < tid_of r).
+Proof.
+  intros nw tm es h os c v h' os' w r rq Hr Hc Hin.
+  destruct (client_request_sends _ _ _ _ _ _ _ _ Hc Hin) as [A B]. cbn [handover next_task] in A, B.
+  pose proof (inv_wf _ _ _ (reach_inv _ _ _ _ _ Hr)) as W.
+  repeat split; try assumption.
+  - intros r0 tid0 H0. destruct (wf_live _ W _ _ H0) as [E [t [Ht Hid]]]. rewrite A, E, <- Hid. apply (wf_tid _ W _ Ht).
+  - intros t Ht. rewrite A. apply (wf_tid _ W _ Ht).
+Qed.
+
+Example ids_fresh_after_handover_nonvacuous :
+  let '(h, _) := run (init 2 1000) [EClient 0 VWorker; EClient 1 VQuery; EResp 0 (Some (0,0,0)) SOk] in
+  next_task h = 2 /\
+  finals_of 2 (snd (run (handover h) [EResp 1 (Some (1,0,0)) SOk; EClient 0 VWorker; EResp 1 (Some (1,0,0)) SOk;
+                                       EResp 0 (Some (0,2,0)) SFailure; EResp 1 (Some (1,2,0)) SOk])) = [SFailure].
+Proof. vm_compute. split; reflexivity. Qed.
 
 (** ... but [UpgradeData] carries no task: a request that is pending when the
     main process is upgraded never gets a final answer from the new one,
